@@ -178,6 +178,18 @@ VARIANTS = [
      "old": "        for c in msg_buf:\n            if c == 0x00:\n                # Always have",
      "new": "        def _feed():\n            for b in msg_buf:\n                yield b\n\n"
             "        for c in _feed():\n            if c == 0x00:\n                # Always have"},
+    {"name": "P R1 cap checked by the feeding generator after each yield", "expect": "silent", "edits": [
+        {"file": DES, "old": "\n            # Well beyond what the viewer allows zerocoding to expand to\n" + _CAP, "new": ""},
+        {"file": DES, "old": "        for c in msg_buf:\n            if c == 0x00:\n                # Always have",
+         "new": "        def _checked():\n            for b in msg_buf:\n                yield b\n                if len(decode_buf) > 0x3000:\n"
+                "                    raise ValueError(\"Unreasonably large zerocoded message\")\n\n"
+                "        for c in _checked():\n            if c == 0x00:\n                # Always have"}]},
+    {"name": "R1 feeding generator's after-yield check looks at the input length", "expect": "C03.R1", "edits": [
+        {"file": DES, "old": "\n            # Well beyond what the viewer allows zerocoding to expand to\n" + _CAP, "new": ""},
+        {"file": DES, "old": "        for c in msg_buf:\n            if c == 0x00:\n                # Always have",
+         "new": "        def _checked():\n            for b in msg_buf:\n                yield b\n                if len(msg_buf) > 0x3000:\n"
+                "                    raise ValueError(\"Unreasonably large zerocoded message\")\n\n"
+                "        for c in _checked():\n            if c == 0x00:\n                # Always have"}]},
     {"name": "R1 generator checks the cap before handing out the next byte and the loop no longer does", "expect": "C03.R1", "edits": [
         {"file": DES, "old": "\n            # Well beyond what the viewer allows zerocoding to expand to\n" + _CAP, "new": ""},
         {"file": DES, "old": "        for c in msg_buf:\n            if c == 0x00:\n                # Always have",
